@@ -77,7 +77,10 @@ def run(ctx: core.Ctx):
         inp = dict(x=xi.tolist() if n <= 60 else dict(n=n, valid=int(m.sum()), head=xi[:20].tolist()), nodata=nd)
         lines.append(f"autocorr F {core.farr(np.where(m, y, 0).astype('float64'))} {core.iarr(m.astype(int))}")
         refs.append((inp, r_int))
-        if not (abs(r_int - ref) <= 1e-9 and abs(r_flt - ref) <= 1e-9):
+        vv = y[m].astype("float64")
+        cond = 1.0 if vv.size < 2 or vv.var() == 0 else float((vv.mean() ** 2 + vv.var()) / vv.var())
+        tol = 1e-9 + 2e-17 * n * cond        # forward error of the raw-moment variance n*Sxx - Sx^2 in float64 (level^2 / variance)
+        if not (abs(r_int - ref) <= tol and abs(r_flt - ref) <= tol):
             # degenerate threshold of the code: variance below 1e-8 -> 0; reference has no threshold
             ctx.fail("autocorr_1d", inp, dict(int=r_int, float=r_flt), ref, note="Pearson correlation of the series with itself shifted by one step, gaps filled with the mean of the valid cells of each vector")
         if not (-1 - 1e-12 <= r_int <= 1 + 1e-12):
@@ -90,7 +93,7 @@ def run(ctx: core.Ctx):
         if np.abs(y2).max() < 32000 and nd not in y2:
             x2 = np.where(m, y2, nd).astype("int16")
             r2 = float(autocorr_1d(x2, nd))
-            if abs(r2 - r_int) > 1e-9:
+            if abs(r2 - r_int) > 10 * tol:
                 ctx.fail("autocorr_1d", dict(inp, a=a, b=b), r2, r_int, note="unchanged by a positive affine rescaling of the valid cells")
     for (inp, r_int), a in zip(refs, ctx.driver.ask(lines)):
         mv = core.h2f(a.split()[1])
